@@ -785,6 +785,7 @@ func (bp *brokerProducer) run() {
 			if msg == nil {
 				continue
 			}
+			verifEvt("bp.recv", msg, msg.retries, int(bp.broker.ID()))
 
 			if msg.flags&syn == syn {
 				Logger.Printf("producer/broker/%d state change to [open] on %s/%d\n",
@@ -848,6 +849,7 @@ func (bp *brokerProducer) run() {
 		case <-bp.timer:
 			bp.timerFired = true
 		case output <- bp.buffer:
+			verifEvt("bp.handover", nil, int(bp.broker.ID()), 0)
 			bp.rollOver()
 		case response, ok := <-bp.responses:
 			if ok {
@@ -873,6 +875,7 @@ func (bp *brokerProducer) shutdown() {
 		case response := <-bp.responses:
 			bp.handleResponse(response)
 		case bp.output <- bp.buffer:
+			verifEvt("bp.handover", nil, int(bp.broker.ID()), 1)
 			bp.rollOver()
 		}
 	}
@@ -904,6 +907,7 @@ func (bp *brokerProducer) waitForSpace(msg *ProducerMessage, forceRollover bool)
 				return nil
 			}
 		case bp.output <- bp.buffer:
+			verifEvt("bp.handover", nil, int(bp.broker.ID()), 2)
 			bp.rollOver()
 			return nil
 		}
@@ -917,6 +921,7 @@ func (bp *brokerProducer) rollOver() {
 }
 
 func (bp *brokerProducer) handleResponse(response *brokerProducerResponse) {
+	verifEvtSet("bp.resp", response.set, int(bp.broker.ID()))
 	if response.err != nil {
 		bp.handleError(response.set, response.err)
 	} else {
@@ -941,9 +946,11 @@ func (bp *brokerProducer) handleSuccess(sent *produceSet, response *ProduceRespo
 
 		block := response.GetBlock(topic, partition)
 		if block == nil {
+			verifEvt("bp.verdict", nil, int(partition), -1000)
 			bp.parent.returnErrors(pSet.msgs, ErrIncompleteResponse)
 			return
 		}
+		verifEvt("bp.verdict", nil, int(partition), int(block.Err))
 
 		switch block.Err {
 		// Success
@@ -1008,6 +1015,7 @@ func (bp *brokerProducer) handleSuccess(sent *produceSet, response *ProduceRespo
 					bp.parent.retryMessages(pSet.msgs, block.Err)
 				}
 				// dropping the following messages has the side effect of incrementing their retry count
+				verifEvt("bp.drop", nil, int(partition), int(bp.broker.ID()))
 				bp.parent.retryMessages(bp.buffer.dropPartition(topic, partition), block.Err)
 			}
 		})
@@ -1051,6 +1059,7 @@ func (bp *brokerProducer) handleError(sent *produceSet, err error) {
 		})
 	default:
 		Logger.Printf("producer/broker/%d state change to [closing] because %s\n", bp.broker.ID(), err)
+		verifEvt("bp.closing", nil, int(bp.broker.ID()), 0)
 		bp.parent.abandonBrokerConnection(bp.broker)
 		_ = bp.broker.Close()
 		bp.closing = err
